@@ -152,22 +152,55 @@ pub fn c02_prop(model: &Model, ix: &Index, ex: &Exec, tape: &[u32], st: &mut Sta
     let env = Env::new(model, ex.qcap);
     let n_msgs = t.range(1, 4);
     let msgs: Vec<Message> = (0..n_msgs).map(|_| gen::gen_message(&mut t, ix, &cfg)).collect();
+    // now and then an EMPTY unit inside a message ("A;;B"). IEEE 488.2 allows it, the library today
+    // reports a syntax error; either way it must not act as a terminator: accepted are (a) exactly one
+    // error there, the rest of the message executed or dropped, or (b) the empty unit ignored with the
+    // path kept. (A fault-free, newline-free variant only: see C06 for faulty messages.)
+    let mut without_empty: Option<Vec<Message>> = None;
+    let mut msgs = msgs;
+    let mut kinds: Vec<Vec<UnitKind>> = msgs.iter().map(|m| vec![UnitKind::Normal; m.units.len()]).collect();
+    if !cfg.lit.newlines && t.chance(1, 8) {
+        let cands: Vec<usize> = (0..msgs.len()).filter(|i| msgs[*i].units.len() >= 2).collect();
+        if !cands.is_empty() {
+            let mi = cands[t.below(cands.len())];
+            let pos = t.range(1, msgs[mi].units.len() - 1);
+            without_empty = Some(msgs.clone());
+            let mut empty = Unit::new(
+                Header {
+                    absolute: false,
+                    mnems: vec!["EMPTY".into()],
+                    query: false,
+                },
+                vec![],
+            );
+            empty.raw = Some(if t.chance(1, 2) { Vec::new() } else { b" ".to_vec() });
+            msgs[mi].units.insert(pos, empty);
+            kinds[mi].insert(pos, UnitKind::Syntax);
+        }
+    }
     let stream = render_all(&msgs);
-    let pred = gen::predict(model, &msgs, None, &env);
+    let pred = gen::predict(model, &msgs, Some(&kinds), &env);
+    let pred_b = without_empty.as_ref().map(|m| gen::predict(model, m, None, &env));
     let np = t.below(4);
     let pauses: Vec<u8> = (0..np).map(|_| t.below(3) as u8).collect();
 
     let out = (ex.run_rec)(&env, &pauses, &stream);
-    gen::match_log(
-        &pred,
-        &out.log,
-        &MatchCfg {
-            responses_in_log: true,
-            output: None,
-            qcap: ex.qcap,
-        },
-    )
-    .map_err(|e| format!("run('{}'): {} [log: {}]", esc(&stream), e, show_log(&out.log)))?;
+    let cfg_log = MatchCfg {
+        responses_in_log: true,
+        output: None,
+        qcap: ex.qcap,
+    };
+    let first = gen::match_log(&pred, &out.log, &cfg_log);
+    let verdict = match (&first, &pred_b) {
+        (Err(_), Some(pb)) => gen::match_log(pb, &out.log, &cfg_log).map_err(|e2| {
+            format!("neither 'one error at the empty unit' ({}) nor 'empty unit ignored, path kept' ({})", first.clone().unwrap_err(), e2)
+        }),
+        _ => first.clone(),
+    };
+    verdict.map_err(|e| format!("run('{}'): {} [log: {}]", esc(&stream), e, show_log(&out.log)))?;
+    if pred_b.is_some() {
+        st.class("message with an empty unit inside");
+    }
     check_handler_ordering(&out.log).map_err(|e| format!("run('{}'): {} [log: {}]", esc(&stream), e, show_log(&out.log)))?;
 
     let longest = msgs.iter().map(|m| m.rendered().len()).max().unwrap_or(1);
@@ -177,16 +210,17 @@ pub fn c02_prop(model: &Model, ix: &Index, ex: &Exec, tape: &[u32], st: &mut Sta
         let reads = gen_reads(&mut t, stream.len(), n);
         let po = (ex.process)(&env, n, &pauses, &stream, &reads);
         let (_, written) = crate::observation(&po.log, &[]);
-        gen::match_log(
-            &pred,
-            &po.log,
-            &MatchCfg {
-                responses_in_log: false,
-                output: Some(written),
-                qcap: ex.qcap,
-            },
-        )
-        .map_err(|e| {
+        let cfg_out = MatchCfg {
+            responses_in_log: false,
+            output: Some(written),
+            qcap: ex.qcap,
+        };
+        let first = gen::match_log(&pred, &po.log, &cfg_out);
+        let verdict = match (&first, &pred_b) {
+            (Err(_), Some(pb)) => gen::match_log(pb, &po.log, &cfg_out),
+            _ => first.clone(),
+        };
+        verdict.map_err(|e| {
             format!(
                 "process::<{}>('{}') reads {:?}: {} [log: {}]",
                 n,
@@ -249,6 +283,10 @@ const SYNTAX_UNITS: &[&[u8]] = &[
     b"A@", b"A 1 2", b"A,1", b"A ,1", b"A 1,,2", b"A?x", b"@", b":", b"A:", b"A::A", b"A 1,", b"A 1e", b"A 1.2.3", b"&A",
     b"A 1,2,3,4,5,6,7,8,9,10,11", b"A -", b"A +", b"A $", b"1", b"A? ?", b"*", b"*?", b"A\x80", b"A 1\xff",
     b"A (1)", b"A=1",
+    // a header separator with nothing behind it, also on headers whose handler takes no parameter and
+    // on queries (a parser that swallowed the separator would run the handler / answer)
+    b"TEST:INIT:", b"TEST:INITIATE :", b":TEST:INIT: ", b"SYST:ERR:?", b"SYST:ERR:COUN:?", b"SYSTEM:VERSION: ?", b"A: ?",
+    b"*RST:", b"*OPC:?", b"MEAS:TEMP:?",
 ];
 
 fn mismatched_literal(t: &mut Tape, ty: Ty) -> Lit {
